@@ -3,6 +3,7 @@
 #include "platform/mdsdrv.h"
 #include <algorithm>
 #include "riff.h"
+#include "optimizer.h"
 
 // hook (guarded by CTRMML_VERIF in mdsdrv.h): read access to MDSDRV_Data's maps
 class MDSDRV_Data_Test
@@ -135,4 +136,30 @@ static std::string h_conv(const std::string& arg)
 	catch(std::exception& e) { return std::string("exc:") + exc_name(e); }
 }
 HANDLER("conv", h_conv);
+
+// convo <min_score> tokens...: optimise first (as `mmlc -O`), then convert
+static std::string h_convo(const std::string& arg)
+{
+	std::vector<std::string> toks = split_ws(arg);
+	int min_score = atoi(toks.at(0).c_str());
+	toks.erase(toks.begin());
+	Song song;
+	setup_conv_song(song, toks);
+	try
+	{
+		Optimizer o(song, 0);
+		o.min_score = min_score;
+		o.optimize();
+	}
+	catch(InputError& e) { return "opterr:" + msg_token(e.what()); }
+	catch(std::exception& e) { return std::string("optexc:") + exc_name(e); }
+	try
+	{
+		MDSDRV_Converter conv(song);
+		return MDSDRV_Converter_Test::dump(conv);
+	}
+	catch(InputError& e) { return "err:" + err_class(e.what()); }
+	catch(std::exception& e) { return std::string("exc:") + exc_name(e); }
+}
+HANDLER("convo", h_convo);
 static Registrar reg_convwf("convwf", h_conv);
